@@ -355,6 +355,8 @@ def run(repo: Repo, rep: Report, tier: str) -> None:
     rep.rule("handler-iterable", "_wrap_handler only iterates what the handler returned, inside its guarded try (C26's rule): nothing it does with the object can raise past the SCP")
     check_wrap_handler_uses(repo, rep, "handler-iterable")
     from ..delegate import delegate
+    rep.rule("categories-correct", "the category an SCP takes from its status table is the PS3.7 category of that code (C28's table-agreement)")
+    delegate(repo, rep, tier, "C28", ("table-agreement",), "categories-correct", "an SCP that looks this code up takes the wrong branch: a Pending status filed as Warning is sent without its Identifier and treated as the final response's predecessor that never comes - the request never gets a final response")
     rep.rule("exchange-framed", "the request's data set is waited for and the final response is cut into exactly the fragments the peer reassembles (C15's fragmentation and reader rules)")
     delegate(repo, rep, tier, "C15", ("overhead", "overhead-count", "order-flags", "one-pdv", "reader-bits", "reader-complete", "message-reset"), "exchange-framed", "the exchange ends without a final response although nobody aborted or released: for some sizes the response's encoder raises out of send_msg (the association is aborted after the Pending responses), or a request whose data set is announced with another legal value is queued without it and the following fragments are taken for a new, invalid message")
 
